@@ -84,7 +84,7 @@ class Patch:
         self.undo = []
 
 
-FAULT_KINDS = ["raise_rt", "raise_key", "raise_noargs", "raise_intarg", "raise_stopiter", "nan", "pinf", "ninf", "cplx", "vec", "list3", "tuple2", "none"]
+FAULT_KINDS = ["raise_rt", "raise_key", "raise_noargs", "raise_intarg", "raise_stopiter", "cplx0", "npcplx0", "nan", "pinf", "ninf", "cplx", "vec", "list3", "tuple2", "none"]
 FAULT_KINDS_SPEC = ["notuple", "tuple3", "sd0", "sdneg", "sdnan", "sdinf"]
 
 
@@ -209,6 +209,18 @@ def make_target(run):
         if tkind == "adv":
             run.seen.setdefault(key, val)
             run.m = val if run.m is None else min(run.m, val)
+        vt_ = job.get("val_type")
+        if vt_ and mode == "det":
+            # integer-valued landscape returned as a NumPy / Python numeric type other than float
+            ival = int(round(10.0 * val)) + 3
+            rec["val"] = float(ival)
+            if tkind == "adv":
+                raise HarnessError("val_type needs a natural landscape")
+            typed = {"uint64": np.uint64, "int64": np.int64, "int32": np.int32, "float32": np.float32, "int": int, "uint8": np.uint8}[vt_]
+            if vt_ == "uint8":
+                ival = min(ival, 250)
+                rec["val"] = float(ival)
+            return typed(ival)
         if fault is not None and int(fault[0]) == k:
             kind = fault[1]
             rec["fault"] = kind
@@ -223,7 +235,8 @@ def make_target(run):
                 raise InjectedTargetError(7)
             if kind == "raise_stopiter":  # e.g. a target calling next() on an exhausted iterator
                 raise StopIteration("injected at call %d" % k)
-            bad = {"nan": np.nan, "pinf": np.inf, "ninf": -np.inf, "cplx": 1 + 2j,
+            bad = {"nan": np.nan, "pinf": np.inf, "ninf": -np.inf, "cplx": 1 + 2j, "cplx0": complex(float(val) if np.isscalar(val) else 1.0, 0.0),
+                   "npcplx0": np.complex128(complex(float(val) if np.isscalar(val) else 1.0, 0.0)),
                    "vec": np.array([1.0, 2.0]), "list3": [float(val) if np.isscalar(val) else 1.0, 0.5, 0.25],
                    "tuple2": (float(val) if np.isscalar(val) else 1.0, 0.5), "none": None}
             if kind in bad:
@@ -273,7 +286,7 @@ def build_problem(run):
 
 
 def msg_code(msg):
-    for kk, vv in (("max_fun_evals", "fe"), ("max_iter", "it"), ("tol_mesh", "mesh"), ("tol_fun", "fun")):
+    for kk, vv in (("max_fun_evals", "fe"), ("max_iter", "it"), ("tol_mesh", "mesh"), ("tol_fun", "fun"), ("output_fcn", "out")):
         if kk in (msg or ""):
             return vv
     return ""
@@ -744,11 +757,15 @@ def execute(job):
         f = make_target(run)
         opts = P.base_options(run.mode, job.get("seed", 1), job.get("opts"))
         run.user_opts = dict(opts)
+        if opts.get("output_fcn") == "STOP_INIT":
+            opts["output_fcn"] = lambda x, state: True
+        elif opts.get("output_fcn") == "NEVER_STOP":
+            opts["output_fcn"] = lambda x, state: False
         install(run, patch)
         if job.get("target_obj"):
             f = _TargetObject(f)
         try:
-            b = bb.BADS(f, options=dict(opts), **kw)
+            b = bb.BADS(f, options=opts if job.get("opts_by_reference") else dict(opts), **kw)
             run.bads = b
             run.phase = "pre"
             run.result = b.optimize()
